@@ -97,3 +97,13 @@ package base
 //@   nopanic
 //@   ensures stays_inside: result1 == nil ==> !escapes(name) && !hasPrefix(name, "/")
 //@   ensures rejected: result1 != nil ==> result0 == nil
+
+// ---- files awaiting write-back are never deleted (properties C10, C31) -----------------------------
+//
+// Delete is the only function of the package that removes an entry's files (os.RemoveAll of its
+// directory). The sink rule: it is reached only when the persist flag could be read and is false,
+// or does not exist; if the flag cannot be read the file is kept.
+//@ func localFileEntry.Delete
+//@   requires entry != nil
+//@   modifies *
+//@   assert never_while_persisted: at os.RemoveAll#0 :: !persist.Value
